@@ -2,7 +2,7 @@
 # One harness, two stages with the same generator: under ASan+UBSan, and (for volume: a MathML block costs 15 ms there and
 # 70 ms under ASan, all of it in libxml2's DTD handling) with the plain build. Case counts are budgets, not time limits.
 # Measured cost per case (models of up to six components, 3-10 faulted copies each): 0.14 s plain, about 0.5 s under ASan; quick is
-# about 1300 core-seconds (80 s on 16 free cores), thorough about 12 000.
+# about 1300 core-seconds (80 s on 16 free cores; measured 1840 for 800 + 6000 cases), thorough about 12 000.
 # The family list is produced by the harness itself: C04_LIST_FAMILIES=1 .build/asan/h/C04 > bin/plans.d/C04.families
 import os
 
@@ -10,7 +10,7 @@ _families = [l.strip() for l in open(os.path.join(os.path.dirname(os.path.abspat
 
 PLAN = {
     "level": "fault_enumeration",
-    "quick": [replays("C04"), tape("C04", 800, size=500), tape("C04", 6000, size=500, flavour="plain", seed_offset=500)],
+    "quick": [replays("C04"), tape("C04", 600, size=500), tape("C04", 4500, size=500, flavour="plain", seed_offset=500)],
     "thorough": [replays("C04"), tape("C04", 6000, size=500), tape("C04", 64000, size=500, flavour="plain", seed_offset=500)],
     # a family with zero hits is reported as GENERATOR-HEALTH (the floor is far below one case); the evidence also carries
     # x_family_validations with an entry, possibly 0, for every family of the catalogue
